@@ -14,7 +14,7 @@ import traceback
 
 from . import speclang
 
-GHOST_NAMES = {"org", "prov", "upd", "Perm", "Follow", "fresh", "same_object_ghost", "ufn", "apply", "SUM", "unit", "chunk_off", "nyielded", "consumed", "nitems", "item", "mapped", "defined_len", "field", "fresh"}
+GHOST_NAMES = {"org", "prov", "upd", "Perm", "Follow", "fresh", "same_object_ghost", "ufn", "apply", "SUM", "unit", "chunk_off", "nyielded", "consumed", "nitems", "item", "mapped", "defined_len", "fresh"}
 
 
 class Skip(Exception):
